@@ -359,6 +359,192 @@ let do_fself t =
     nontrivial := true; ""
   end
 
+(* ---------- PathD / Paths overloads (models instantiated at Point<double>, compared bit for bit) ---------- *)
+let read_pathsd t = read_list read_pathd t
+let cmp_pathd name (m : (Float64.t * Float64.t) list res) impl =
+  match m with
+  | Ok mp when pathd_eq mp impl -> ()
+  | r -> corr (Printf.sprintf "%s model=[%s] impl=[%s]" name (show_res show_pathd r) (show_pathd impl))
+let cmp_list name eq show m impl =
+  match m with
+  | Ok mp when List.length mp = List.length impl && List.for_all2 eq mp impl -> ()
+  | r -> corr (Printf.sprintf "%s model=[%s] impl=[%s]" name (show_res show r) (show impl))
+let keeps_ends_d out p = match out, p with
+  | [], [] -> true
+  | a :: _, b :: _ -> ptd_eq a b && ptd_eq (last_of out) (last_of p)
+  | _ -> false
+
+let simp_props_d p eps c out =
+  if not (sublist_d out p) then prop "simplify.not-subsequence" "PathD: result is not a subsequence of the input";
+  if (not c) && List.length p >= 2 && not (keeps_ends_d out p) then prop "simplify.open-ends-lost" "PathD, open path: first/last vertex not kept";
+  if not (simplify_fixed_d out eps c) then prop "simplify.removable-vertex-left" "PathD: a remaining vertex is within epsilon of the line through its neighbours"
+
+let do_simpd t =
+  let eps = next_f t in let c = next_bool t in let p = read_pathd t in
+  let m = simplify_path_d p eps c in
+  if not (expect_eq t) then show_res show_pathd m else begin
+    let out = read_pathd t in
+    cmp_pathd "simplify<double>" m out; nontrivial := not (pathd_eq out p); simp_props_d p eps c out; ""
+  end
+
+let do_simps t =
+  let eps = next_f t in let c = next_bool t in let ps = read_paths t in
+  let m = simplify_paths ps eps c in
+  if not (expect_eq t) then show_res show_paths m else begin
+    let outs = read_paths t in
+    cmp_list "SimplifyPaths<int64>" peq show_paths m outs; nontrivial := true; ""
+  end
+
+let do_simpsd t =
+  let eps = next_f t in let c = next_bool t in let ps = read_pathsd t in
+  let m = simplify_paths_d ps eps c in
+  if not (expect_eq t) then show_res show_pathsd m else begin
+    let outs = read_pathsd t in
+    cmp_list "SimplifyPaths<double>" pathd_eq show_pathsd m outs; nontrivial := true;
+    if List.length outs = List.length ps then List.iter2 (fun p out -> simp_props_d p eps c out) ps outs;
+    ""
+  end
+
+let do_rdpd t =
+  let eps = next_f t in let p = read_pathd t in
+  let m = rdp_path_d p eps in let mf = rdp_path_flags_d p eps in
+  if not (expect_eq t) then show_res show_pathd m else begin
+    let out = read_pathd t in let fl = read_flags t in
+    cmp_pathd "rdp<double>" m out;
+    (match mf with
+     | Ok f when f = fl -> ()
+     | r -> corr (Printf.sprintf "RDP<double> flags model=%s impl=%s" (show_res show_flags r) (show_flags fl)));
+    nontrivial := not (pathd_eq out p);
+    if not (sublist_d out p) then prop "rdp.not-subsequence" "PathD: result is not a subsequence of the input";
+    if not (keeps_ends_d out p) then prop "rdp.ends-lost" "PathD: the result does not start/end at the input's first/last point";
+    (match rdp_bad_d p fl eps with
+     | [] -> ()
+     | bad -> prop "rdp.bound" (Printf.sprintf "PathD: removed vertices %s are farther than epsilon from the line through their surviving neighbours (or have none)"
+                (String.concat "," (List.map (fun n -> string_of_int (int_of_nat n)) bad))));
+    ""
+  end
+
+let do_rdps t =
+  let eps = next_f t in let ps = read_paths t in
+  let m = rdp_paths ps eps in
+  if not (expect_eq t) then show_res show_paths m else begin
+    let outs = read_paths t in cmp_list "RamerDouglasPeucker(Paths64)" peq show_paths m outs; nontrivial := true; ""
+  end
+
+let do_rdpsd t =
+  let eps = next_f t in let ps = read_pathsd t in
+  let m = rdp_paths_d ps eps in
+  if not (expect_eq t) then show_res show_pathsd m else begin
+    let outs = read_pathsd t in cmp_list "RamerDouglasPeucker(PathsD)" pathd_eq show_pathsd m outs; nontrivial := true;
+    if List.length outs = List.length ps then
+      List.iter2 (fun p out -> if not (sublist_d out p && keeps_ends_d out p) then prop "rdp.ends-lost" "PathsD: not a subsequence that keeps both ends") ps outs;
+    ""
+  end
+
+let do_transd t =
+  let dx = next_f t in let dy = next_f t in let p = read_pathd t in
+  let m = translate_path_d p dx dy in
+  if not (expect_eq t) then show_pathd m else begin
+    let out = read_pathd t in cmp_pathd "translate<double>" (Ok m) out; nontrivial := p <> [];
+    if not (List.length out = List.length p && List.for_all2 (fun (x, y) (u, v) -> feq u (fadd x dx) && feq v (fadd y dy)) p out) then
+      prop "translate.not-pointwise" "PathD: result is not the pointwise binary64 sum";
+    ""
+  end
+
+let do_transs t =
+  let dx = next_z t in let dy = next_z t in let ps = read_paths t in
+  let m = List.map (fun p -> translate_path p dx dy) ps in
+  if not (expect_eq t) then show_paths m else begin
+    let outs = read_paths t in cmp_list "TranslatePaths<int64>" peq show_paths (Ok m) outs; nontrivial := true; ""
+  end
+
+let do_transsd t =
+  let dx = next_f t in let dy = next_f t in let ps = read_pathsd t in
+  let m = List.map (fun p -> translate_path_d p dx dy) ps in
+  if not (expect_eq t) then show_pathsd m else begin
+    let outs = read_pathsd t in cmp_list "TranslatePaths<double>" pathd_eq show_pathsd (Ok m) outs; nontrivial := true; ""
+  end
+
+let sdup_props_d p c out =
+  if not (sublist_d out p) then prop "stripdup.not-subsequence" "PathD: result is not a subsequence";
+  if not (adj_ok (fun a b -> not (ptd_eqb a b)) out) then prop "stripdup.adjacent-duplicate-left" "PathD: equal consecutive points remain";
+  if c && List.length out > 1 && ptd_eqb (List.hd out) (last_of out) then prop "stripdup.closing-duplicate-left" "PathD, closed: last equals first";
+  if not (List.for_all (fun q -> List.exists (ptd_eqb q) out) p) then prop "stripdup.point-lost" "PathD: a point value disappeared"
+
+let do_sdupd t =
+  let c = next_bool t in let p = read_pathd t in
+  let m = strip_duplicates_d p c in
+  if not (expect_eq t) then show_res show_pathd m else begin
+    let out = read_pathd t in cmp_pathd "strip_duplicates<double>" m out; nontrivial := not (pathd_eq out p); sdup_props_d p c out; ""
+  end
+
+let do_sdupsd t =
+  let c = next_bool t in let ps = read_pathsd t in
+  let m = strip_duplicates_paths_d ps c in
+  if not (expect_eq t) then show_res show_pathsd m else begin
+    let outs = read_pathsd t in cmp_list "strip_duplicates(PathsD)" pathd_eq show_pathsd m outs; nontrivial := true;
+    if List.length outs = List.length ps then List.iter2 (fun p out -> sdup_props_d p c out) ps outs;
+    ""
+  end
+
+(* TrimCollinear(PathD, precision, open) = descale (TrimCollinear64 (round (path * scale))), scale = pow(10, precision) as reported *)
+let pow10 = [| 1.0; 10.0; 100.0; 1000.0; 10000.0; 100000.0; 1000000.0; 10000000.0; 100000000.0 |]
+let do_trimd t =
+  let prec = next_int t in let o = next_bool t in let p = read_pathd t in
+  if not (expect_eq t) then "?" else begin
+    let scale = next_f t in let out = read_pathd t in
+    if prec >= 0 && prec <= 8 && not (feq scale (Float64.of_float pow10.(prec))) then corr "TrimCollinear(PathD): pow(10, precision) is not the exact power of ten";
+    if prec < 0 && prec >= -8 && Float.abs (Float64.to_float scale *. pow10.(-prec) -. 1.0) > 1e-15 then corr "TrimCollinear(PathD): pow(10, precision) is off";
+    cmp_pathd "TrimCollinear(PathD)" (trim_collinear_d p scale o) out;
+    nontrivial := not (pathd_eq out p);
+    if o && List.length p >= 2 && List.length out < 2 then prop "trimd.open-ends-lost" "TrimCollinear(PathD), open path: fewer than two points returned";
+    ""
+  end
+
+let do_ellr t =
+  let l = next_z t in let tp = next_z t in let r = next_z t in let b = next_z t in let steps = next_z t in
+  if not (expect_eq t) then "?" else begin
+    let isteps = next_z t in let si = next_f t in let co = next_f t in let out = read_path t in
+    let (rx, ry) = ellipse_rect_radii_i l tp r b in
+    (match ellipse_params rx ry steps with
+     | None -> if out <> [] then corr "Ellipse(Rect64): model returns the empty path (width <= 0)"
+     | Some (_, s) ->
+       if s <> isteps then corr (Printf.sprintf "Ellipse(Rect64) steps model=%s harness=%s" (string_of_z s) (string_of_z isteps));
+       cmp_path "Ellipse(Rect64)" (Ok (ellipse_rect_i l tp r b steps si co)) out;
+       nontrivial := plen out > 2);
+    ""
+  end
+
+let do_ellrd t =
+  let l = next_f t in let tp = next_f t in let r = next_f t in let b = next_f t in let steps = next_z t in
+  if not (expect_eq t) then "?" else begin
+    let isteps = next_z t in let si = next_f t in let co = next_f t in let out = read_pathd t in
+    let (rx, ry) = ellipse_rect_radii_d l tp r b in
+    (match ellipse_params rx ry steps with
+     | None -> if out <> [] then corr "Ellipse(RectD): model returns the empty path (width <= 0)"
+     | Some (_, s) ->
+       if s <> isteps then corr (Printf.sprintf "Ellipse(RectD) steps model=%s harness=%s" (string_of_z s) (string_of_z isteps));
+       cmp_pathd "Ellipse(RectD)" (Ok (ellipse_rect_d l tp r b steps si co)) out;
+       nontrivial := List.length out > 2);
+    ""
+  end
+
+let do_tfid t =
+  let p = read_path t in
+  if not (expect_eq t) then show_pathd (transform_path_id p) else begin
+    let out = read_pathd t in cmp_pathd "TransformPath<double,int64>" (Ok (transform_path_id p)) out; nontrivial := p <> []; ""
+  end
+let do_tfdi t =
+  let p = read_pathd t in
+  if not (expect_eq t) then show_path (transform_path_di p) else begin
+    let out = read_path t in cmp_path "TransformPath<int64,double>" (Ok (transform_path_di p)) out; nontrivial := p <> []; ""
+  end
+let do_tfids t =
+  let ps = read_paths t in
+  if not (expect_eq t) then "?" else begin
+    let outs = read_pathsd t in cmp_list "TransformPaths<double,int64>" pathd_eq show_pathsd (Ok (List.map transform_path_id ps)) outs; nontrivial := true; ""
+  end
+
 let handle t =
   match next t with
   | "TRIM" -> do_trim t
@@ -370,6 +556,12 @@ let handle t =
   | "SNEARS" -> do_snears t
   | "SNEARSD" -> do_snearsd t
   | "SDUPS" -> do_sdups t
+  | "SIMPD" -> do_simpd t | "SIMPS" -> do_simps t | "SIMPSD" -> do_simpsd t
+  | "RDPD" -> do_rdpd t | "RDPS" -> do_rdps t | "RDPSD" -> do_rdpsd t
+  | "TRANSD" -> do_transd t | "TRANSS" -> do_transs t | "TRANSSD" -> do_transsd t
+  | "SDUPD" -> do_sdupd t | "SDUPSD" -> do_sdupsd t
+  | "TRIMD" -> do_trimd t | "ELLR" -> do_ellr t | "ELLRD" -> do_ellrd t
+  | "TFID" -> do_tfid t | "TFDI" -> do_tfdi t | "TFIDS" -> do_tfids t
   | "BOUNDS" -> do_bounds t
   | "TRANS" -> do_trans t
   | "LEN" -> do_len t
